@@ -49,29 +49,41 @@ type command struct {
 // We need to keep searching for successful queries of f while *ctr > 0.
 // When we find a successful result, we decrement *ctr.
 func workerSearch(results []interface{}, ctrChanged chan<- struct{}, f func(int) interface{}, ctr *int64) {
+	yield("workerSearch.beforeLoad")
 	for atomic.LoadInt64(ctr) > 0 {
+		yield("workerSearch.beforeEval")
 		res := f(0)
 		if res == nil {
+			yield("workerSearch.beforeLoad")
 			continue
 		}
+		yield("workerSearch.beforeDec")
 		i := atomic.AddInt64(ctr, -1)
+		yield("workerSearch.beforeWrite")
 		if i >= 0 {
 			results[i] = res
 		}
+		yield("workerSearch.beforeNotify")
 		ctrChanged <- struct{}{}
+		yield("workerSearch.beforeLoad")
 	}
 }
 
 // worker starts up a new worker, listening to commands, and producing results
 func worker(commands <-chan command) {
+	yield("worker.idle")
 	for c := range commands {
+		yield("worker.gotCmd")
 		if c.search {
 			workerSearch(c.results, c.ctrChanged, c.f, c.ctr)
 		} else {
 			c.results[c.i] = c.f(c.i)
+			yield("worker.beforeDec")
 			atomic.AddInt64(c.ctr, -1)
+			yield("worker.beforeNotify")
 			c.ctrChanged <- struct{}{}
 		}
+		yield("worker.idle")
 	}
 }
 
@@ -145,15 +157,22 @@ func (p *Pool) Search(count int, f func() interface{}) []interface{} {
 	}
 	cmdI := 0
 	for cmdI < p.workerCount {
+		yield("Search.beforeSelect")
 		select {
 		case p.commands <- cmd:
 			cmdI++
+			yield("Search.sent")
 		case <-ctrChanged:
+			yield("Search.notified")
 		}
 	}
+	yield("Search.beforeLoad")
 	for atomic.LoadInt64(&ctr) > 0 {
+		yield("Search.beforeRecv")
 		<-ctrChanged
+		yield("Search.beforeLoad")
 	}
+	yield("Search.return")
 
 	return results
 }
@@ -183,15 +202,22 @@ func (p *Pool) Parallelize(count int, f func(int) interface{}) []interface{} {
 		// We won't be able to send all the commands without blocking, so we make
 		// sure to interleave picking off the results of workers to free them up
 		// to receive our commands
+		yield("Parallelize.beforeSelect")
 		select {
 		case p.commands <- cmd:
 			cmdI++
+			yield("Parallelize.sent")
 		case <-ctrChanged:
+			yield("Parallelize.notified")
 		}
 	}
+	yield("Parallelize.beforeLoad")
 	for atomic.LoadInt64(&ctr) > 0 {
+		yield("Parallelize.beforeRecv")
 		<-ctrChanged
+		yield("Parallelize.beforeLoad")
 	}
+	yield("Parallelize.return")
 
 	return results
 }
